@@ -30,9 +30,11 @@ Layers (all static, all reusable by C10 / C11 / C12 / C15)
        E = `acc(L) < acc(R)` with builtin or user-defined `<` / `>`                                 -> 1 component
        E = `x1 < y1 || (x1 == y1 && REST)`  (hand-written lexicographic chain)                      -> 1 + len(REST)
     Each component is an *access path* from the element (`('field', q)`, `('call', q, canonical argument text)`,
-    `('deref',)`), the direction (`desc` for `>`), and `cmp` = how the component is compared: the canonical type of
+    `('deref',)`; value casts are looked through), the direction (`desc` for `>`), and `cmp` = how the component is compared: the canonical type of
     the accessor plus the type it is compared as (so a sort on a signed field and a search on the same field cast to
-    unsigned do NOT agree) or the resolved user `operator<`.  The left and right operand must use the same path,
+    unsigned do NOT agree) or the resolved user `operator<`.  A user-defined `<` whose own body is a key comparator (a
+    lambda `l < r` delegating to the element's operator<, a sub-object with a tie-based operator<) is spliced in under the
+    access path, so delegation does not hide the key.  The left and right operand must use the same path,
     otherwise UnknownShape (it is not a key comparison).
     `is_prefix(search_key, sort_key)` -> None | reason.  For `adjacent` sites the predicate is an equality, use
     `site_equality_fields` (fields compared by `operator==` / std::tie ==) and `fields_subset_of_key`.
@@ -226,7 +228,7 @@ def _access_path(g, nid):
         hops += 1
         n = g.nodes[nid]
         k = n.get('k')
-        if k in ('wrap', 'icast'):
+        if k in ('wrap', 'icast', 'cast'):      # conversions are recorded by _operand_type as the compared-as type
             nid = n.get('sub')
         elif k == 'construct' and (n.get('elidable') or n.get('copymove')) and len(n.get('args', [])) == 1:
             nid = n['args'][0]
@@ -255,11 +257,14 @@ def _access_path(g, nid):
 
 
 def _operand_type(g, nid):
-    """(type of the accessor, type it is compared as)."""
+    """(type of the accessor, type it is compared as): conversions between the accessor and the comparison (implicit or
+    explicit casts) change the second component only."""
     outer = g.nodes.get(nid, {}).get('t', '?')
-    # look through value-preserving wrappers only (lvalue-to-rvalue icasts keep the type; conversions change it)
-    inner = g.sn(nid)
-    it = inner.get('t', '?') if inner is not None else '?'
+    x, hops = nid, 0
+    while x is not None and x in g.nodes and g.nodes[x].get('k') in ('wrap', 'icast', 'cast') and 'sub' in g.nodes[x] and hops < 20:
+        x = g.nodes[x]['sub']
+        hops += 1
+    it = g.nodes.get(x, {}).get('t', '?') if x is not None else '?'
     return strip_cvref(it), strip_cvref(outer)
 
 
